@@ -1,7 +1,7 @@
 """C05 - Storage and interchange are lossless (structural clauses)."""
 from __future__ import annotations
 
-from . import scopes, lib_mem
+from . import scopes, lib_mem, lib_kind
 from sa.schema import load_schemas
 from . import lib_schema, lib_module, lib_py, lib_file
 
@@ -34,4 +34,7 @@ def run(ctx):
                                                            "TableCollection_equals", "TableCollection_load", "TreeSequence_load")})
     lib_py.kw_forward(ctx, py, mods=("trees", "tables"), only=ps)
     lib_py.unused_params(ctx, py, mods=("trees", "tables", "util"), only=ps)
+    lib_kind.py_lints(ctx, py, mods=("trees", "tables", "util"), only=ps)
+    lib_kind.py_copy_state(ctx, py, [("trees", "TreeSequence"), ("tables", "BaseTable"), ("tables", "TableCollection"), ("trees", "Tree"), ("genotypes", "Variant")])
+    lib_kind.dict_atomic(ctx, P)
     lib_mem.c_lints(ctx, ctx.program(), scopes.lib_scope("C05"))
